@@ -104,6 +104,14 @@ func checkStatusFromServer(ctx context.Context, cert, issuer *x509.Certificate, 
 		return toServerResult(server, err)
 	}
 
+	// RFC 6960 section 4.2.2.2: a response that is not signed with the
+	// issuer's own key must be signed by a certificate that the issuer issued
+	// and authorized for OCSP signing. ParseResponseForCert verifies the
+	// issuance but not the extended key usage.
+	if resp.Certificate != nil && !resp.Certificate.Equal(issuer) && !isAuthorizedResponder(resp.Certificate) {
+		return toServerResult(server, GenericError{Err: errors.New("OCSP response is signed by a certificate that is not authorized for OCSP signing")})
+	}
+
 	// Validate OCSP response isn't expired
 	if time.Now().After(resp.NextUpdate) {
 		return toServerResult(server, GenericError{Err: errors.New("expired OCSP response")})
@@ -137,6 +145,17 @@ func checkStatusFromServer(ctx context.Context, cert, issuer *x509.Certificate, 
 		// ocsp.Unknown
 		return toServerResult(server, UnknownStatusError{})
 	}
+}
+
+// isAuthorizedResponder reports whether the certificate carries the
+// id-kp-OCSPSigning extended key usage.
+func isAuthorizedResponder(responder *x509.Certificate) bool {
+	for _, eku := range responder.ExtKeyUsage {
+		if eku == x509.ExtKeyUsageOCSPSigning {
+			return true
+		}
+	}
+	return false
 }
 
 func extensionsToMap(extensions []pkix.Extension) map[string][]byte {
